@@ -21,6 +21,7 @@ package main
 // until it logs it (`Label.robs`), during which the producer runs on; each thread's own events
 // keep their order, and a value can never be logged before the rendezvous that produced it.
 import (
+	"bytes"
 	"errors"
 	"fmt"
 	"io"
@@ -151,6 +152,15 @@ var (
 	_ io.StringWriter = (*pwScriptSW)(nil)
 )
 
+var pwBig []byte
+
+func pwBigBuf(n int) []byte {
+	if len(pwBig) < n {
+		pwBig = make([]byte, n)
+	}
+	return pwBig[:n]
+}
+
 // ---- one run -----------------------------------------------------------------------------------
 
 type pwResult struct {
@@ -253,9 +263,12 @@ func runPwScenario(sc pwScenario) pwResult {
 			prodPause(i)
 			var n int
 			inWriteSince.Store(time.Now().UnixNano())
-			if c.Str {
+			switch {
+			case c.Len > 1<<20 && !c.Str:
+				n, _ = pw.Write(pwBigBuf(c.Len)) // shared zero buffer: totals beyond 2 GiB without allocating them
+			case c.Str:
 				n, _ = pw.WriteString(string(make([]byte, c.Len)))
-			} else {
+			default:
 				n, _ = pw.Write(make([]byte, c.Len))
 			}
 			inWriteSince.Store(0)
@@ -277,6 +290,9 @@ func runPwScenario(sc pwScenario) pwResult {
 		}
 		if sc.Consumer == "atclose" {
 			close(gate)
+		}
+		if sc.Consumer == "longafterclose" {
+			go func() { time.Sleep(1300 * time.Millisecond); close(gate) }() // the consumer turns up long after Close began
 		}
 		if sc.Close {
 			pw.Close()
@@ -537,7 +553,7 @@ func pwConsumers(close bool) []string {
 func runProgress(cfg Cfg) {
 	s := NewStream(cfg.Out, "progress")
 	defer s.Close()
-	s.Rule = "scripted wrapped writers (full / short / failing / zero-length, io.StringWriter or not) x Write/WriteString sequences x consumers (none, only at Close, fast, yielding, slow, starting late) x producer pacing; every observed trace is judged by the Lean model (trace inclusion) and by the direct oracle; non-trivial = a complete trace in which at least one select-send was taken by the consumer and at least one fell through to default, or which contains a short/failed write (distinct by program|consumer|trace)"
+	s.Rule = "scripted wrapped writers (full / short / failing / zero-length, io.StringWriter or not) x Write/WriteString sequences x consumers (none, only at Close, fast, yielding, slow, starting late, turning up 1.3 s after Close began) incl. totals beyond 2^32 bytes and a writer wrapped around another ProgressWriter x producer pacing; every observed trace is judged by the Lean model (trace inclusion) and by the direct oracle; non-trivial = a complete trace in which at least one select-send was taken by the consumer and at least one fell through to default, or which contains a short/failed write (distinct by program|consumer|trace)"
 	s.Notes = append(s.Notes,
 		"`control` lines are synthetic traces that no correct ProgressWriter can produce (value above the total, wrong write result, Close without any receive, Close before the first write, closed without Close, decreasing values); their .impl answer `reject` is by construction, they test that the acceptor discriminates",
 		"wrapped writers are scripted: reported n within 0..len(p); negative counts are outside the generator (the monotonicity theorem assumes n >= 0)")
@@ -590,6 +606,27 @@ func runProgress(cfg Cfg) {
 			Consumer: Pick(r, pwConsumers(cl)), LateK: r.Intn(nCalls + 1),
 			Pace: Pick(r, []string{"none", "yield", "sleep", "sleep"}), Seed: r.U64()})
 	}
+
+	// a consumer that turns up more than a second after Close began still gets the final total
+	for i := 0; i < cfg.N(2, 5); i++ {
+		r := rng.Fork()
+		calls := make([]pwCall, r.Intn(4))
+		for j := range calls {
+			calls[j] = pwGenCall(r)
+		}
+		scenarios = append(scenarios, pwScenario{SW: r.Bool(), Calls: calls, Close: true, Consumer: "longafterclose", Pace: "none", Seed: r.U64()})
+	}
+	// totals beyond 2^31 and 2^32 bytes (a transfer of a few GiB through one writer)
+	for i := 0; i < cfg.N(1, 3); i++ {
+		r := rng.Fork()
+		var calls []pwCall
+		for j := 0; j < 70+r.Intn(10); j++ {
+			l := 64<<20 + r.Intn(1<<20)
+			calls = append(calls, pwCall{Len: l, N: l})
+		}
+		scenarios = append(scenarios, pwScenario{Calls: calls, Close: true, Consumer: Pick(r, []string{"fast", "atclose", "slow"}), Pace: "none", Seed: r.U64()})
+	}
+	pwNested(s)
 
 	for idx, sc := range scenarios {
 		res := runPwScenario(sc)
@@ -693,4 +730,70 @@ func runProgress(cfg Cfg) {
 			break
 		}
 	}
+}
+
+// pwNested: a ProgressWriter whose wrapped writer is itself a ProgressWriter that has already written
+// (a per-file writer on top of a long-lived total): the outer one counts only what IT passed on.
+func pwNested(s *Stream) {
+	drain := func(ch chan int, last *int, closed *bool, done chan struct{}) {
+		defer close(done)
+		for v := range ch {
+			*last = v
+		}
+		*closed = true
+	}
+	var sink bytes.Buffer
+	inner := ioutil.NewProgressWriter(&sink)
+	var inLast, outLast int
+	var inClosed, outClosed bool
+	inDone, outDone := make(chan struct{}), make(chan struct{})
+	go drain(inner.Status(), &inLast, &inClosed, inDone)
+	inner.Write(make([]byte, 10))
+	outer := ioutil.NewProgressWriter(inner)
+	sc := map[string]any{"scenario": "NewProgressWriter(w) where w is a ProgressWriter that already wrote 10 bytes; then 5 bytes through the outer one"}
+	if outer.Size() != 0 {
+		s.Violate("size-not-sum", fmt.Sprintf("a new ProgressWriter reports Size() = %d before its wrapped writer reported anything", outer.Size()), sc)
+	}
+	go drain(outer.Status(), &outLast, &outClosed, outDone)
+	n, _ := outer.Write(make([]byte, 5))
+	if outer.Size() != n || n != 5 {
+		s.Violate("size-not-sum", fmt.Sprintf("outer writer: Write returned %d, Size() = %d, its wrapped writer reported 5", n, outer.Size()), sc)
+	}
+	if inner.Size() != 15 {
+		s.Violate("size-not-sum", fmt.Sprintf("inner writer: Size() = %d, its wrapped writer reported 15", inner.Size()), sc)
+	}
+	outer.Close()
+	select {
+	case <-outDone:
+	case <-time.After(5 * time.Second):
+		s.Violate("not-closed", "outer writer: channel not closed 5 s after Close", sc)
+		return
+	}
+	if outLast != 5 {
+		s.Violate("close-total", fmt.Sprintf("outer writer: last value received is %d, final total is 5", outLast), sc)
+	}
+	if inClosed {
+		s.Violate("closed-without-close", "inner writer: its channel was closed although only the outer writer was closed", sc)
+		return
+	}
+	func() {
+		defer func() {
+			if v := recover(); v != nil {
+				s.Violate("write-panicked", fmt.Sprintf("inner writer: Write after the OUTER writer was closed panicked: %v", v), sc)
+			}
+		}()
+		inner.Write(make([]byte, 1))
+	}()
+	inner.Close()
+	select {
+	case <-inDone:
+	case <-time.After(5 * time.Second):
+		s.Violate("not-closed", "inner writer: channel not closed 5 s after Close", sc)
+		return
+	}
+	if inLast != 16 {
+		s.Violate("close-total", fmt.Sprintf("inner writer: last value received is %d, final total is 16", inLast), sc)
+	}
+	s.Evaluations++
+	s.Nontrivial("nested")
 }
